@@ -72,15 +72,21 @@ def main(run):
                 "export, one ending early with junk behind .end), 1-2 linked files; each accepted program also as unrolled / inlined / "
                 "concatenated variant; non-trivial = accepted program containing .repeat, insert_file, .end or .include")
     bases = [512, 1026]
-    recs, inc = explore(run, "StructAlphabet", "StructIncFiles", 3, 1, bases, label="AsmCore struct, 1 file x 3 stmts (exhaustive)")
+    recs, inc = explore(run, "StructAlphabet", "StructIncFiles", 3 if thorough else 2, 1, bases,
+                        label=f"AsmCore struct, 1 file x {3 if thorough else 2} stmts (exhaustive)")
     tasks = replay_all(run, recs, inc, {"harness_link": True}, nontrivial)
-    recsb, incb = explore(run, "StructBigAlphabet", "StructIncFiles", 3, 1, bases, label="AsmCore struct, large repeat counts 17/33/40 (exhaustive, 3 stmts)")
+    if not thorough:
+        recs0, inc0 = explore(run, "StructAlphabet", "StructIncFiles", 4, 1, bases, simulate=600, depth=5, seed=run.seed + 23,
+                              label="AsmCore struct simulation (1 file, <= 4 stmts)")
+        tasks += replay_all(run, recs0, inc0, {"harness_link": True}, nontrivial)
+    recsb, incb = explore(run, "StructBigAlphabet", "StructIncFiles", 3 if thorough else 2, 1, bases,
+                          label="AsmCore struct, large repeat counts 17/33/40 (exhaustive)")
     tasks += replay_all(run, recsb, incb, {"harness_link": True}, nontrivial)
     recs1, inc1 = explore(run, "StructAlphabet", "StructIncFiles", 2, 2, [512], extra=("concat",), timeout=3000,
-                          simulate=None if thorough else 3000, depth=None if thorough else 6, seed=run.seed + 2,
+                          simulate=None if thorough else 800, depth=None if thorough else 6, seed=run.seed + 2,
                           label="AsmCore struct, 2 files x 2 stmts with LinkIsConcatenation (" + ("exhaustive" if thorough else "simulation") + ")")
     tasks += replay_all(run, recs1, inc1, {"harness_link": True}, nontrivial)
-    recs2, inc2 = explore(run, "StructAlphabet", "StructIncFiles", 5, 2, bases, simulate=(5000 if thorough else 500), depth=11,
+    recs2, inc2 = explore(run, "StructAlphabet", "StructIncFiles", 5, 2, bases, simulate=(5000 if thorough else 250), depth=11,
                           seed=run.seed + 17, label="AsmCore struct simulation (<= 5 stmts x 2 files)")
     tasks += replay_all(run, recs2, inc2, {"harness_link": True}, nontrivial)
     # transformed variants against the ORIGINAL prediction
